@@ -349,7 +349,9 @@ class Walker(object):
         rng = self.rng
         if p is None:
             return
-        if (p in self.ever_connected or p in self.lost) and not self.reconnect_idle_again:
+        if p in self.lost:
+            return          # connect() on a protocol whose loss has been reported: only in the known-finding witness (KF-2)
+        if p in self.ever_connected and not self.reconnect_idle_again:
             return
         ka = rng.choice(self.keepalives)
         ver = rng.choice(self.versions)
